@@ -8,6 +8,16 @@ def R(pkg, run, quick, thorough, **kw):
 LAB = "./internal/zzverif/lab"
 
 CHECKS = {
+    "C06": {
+        "runs": [
+            R(LAB, "^TestC06", {"checks": 600, "timeout": 600}, {"checks": 2500, "shards": 16, "timeout": 2400}),
+        ],
+    },
+    "C05": {
+        "runs": [
+            R(LAB, "^TestC05", {"checks": 600, "timeout": 600}, {"checks": 2500, "shards": 16, "timeout": 2400}),
+        ],
+    },
     "C18": {
         "runs": [
             R(LAB, "^TestC18", {"checks": 1500, "timeout": 600}, {"checks": 4000, "shards": 16, "timeout": 2400}),
@@ -54,6 +64,12 @@ CHECKS = {
 LEVELS = {}  # default: exploration
 
 RULES = {
+    "C05": "routing laboratory: three origins (two DNS names mapped by base connect-to rules, and localhost), HTTP proxies P and Q, an HTTPS proxy T, a SOCKS5 server S and a redirect target R, all scripted loopback listeners. rapid draws a configuration {no upstream | static http P | https T | socks5 S | generated PAC table host->result from 22 result strings (DIRECT, empty, PROXY/HTTP/HTTPS/SOCKS5/SOCKS/SOCKS4, unknown and lower-case keywords, lists, leading empty entry, missing address/port, throwing script, number and null results)} x direct-domains lists with excludes x proxy-localhost allow/direct x 0-3 connect-to rules with empty fields, "
+           "and 1-4 requests (plain HTTP or CONNECT, GET/POST/HEAD) to the three hosts on a fresh proxy. Oracle: reference routing function (localhost-direct, direct-domains, static/PAC first entry, first matching connect-to rule) -> expected hop, dial address and listener; observed: the proxy's dial log (subset of {expected hop address}), per-listener accept/byte deltas (expected listener active, nobody else except the final target of a harness tunnel), request form seen by the hop (origin-form / absolute-form / CONNECT / SOCKS5 target); undeterminable routes must give 5xx and contact nobody. "
+           "Non-trivial = PAC or connect-to rules present, or two requests of the case take different routes. Distinct = distinct (configuration, requests).",
+    "C06": "the C05 laboratory plus a --credentials table drawn from 11 entries (exact, *:port, host:*, *:* for sites; exact and host-wildcard entries for the proxies), optional userinfo in the static upstream URL, and client header shapes: Proxy-Authorization once / twice with different case / nominated by Connection with mixed-case name, Authorization present or absent. "
+           "Oracle per message recorded at every listener: the client's Proxy-Authorization values appear nowhere; the proxy hop sees exactly Basic b64(userinfo, else the matching table entry) on absolute-form and CONNECT requests (SOCKS5: in the RFC 1929 sub-negotiation); every other party sees no Proxy-Authorization and none of the proxy secrets in any field; the party serving the request sees Authorization iff the client sent one (unchanged) or the reference matcher (exact, *:port, host:*, *:*) selects an entry, nothing inside opaque tunnels. "
+           "Non-trivial = at least two credential sources could apply, or a tunnel with at least one. Distinct = distinct (configuration, requests).",
     "C18": "rapid draws a Via chain of 0-6 elements (other hops with comments / ports / pseudonyms, elements of a different instance with the same name incl. a live second instance's real element, and optionally this instance's own element - learned black-box from a first request - at any position, also in upper case which is not the emitted element), split over 1-3 field lines with Via/via/VIA spelling, "
            "as absolute- or origin-form request, HTTP/1.0 or 1.1, sent to an instance directly or inside a MITM'd tunnel; or sent into real loop topologies A->A and A->B->A built from instances with static upstreams. Oracle: own element anywhere => 400 and no origin accept/byte; otherwise 200 and the origin sees the same elements in order plus exactly one appended element carrying the client's version; loops end with 400 at the client and the origin is never contacted. "
            "Non-trivial = loop topology, own element among >=2 elements, same-name other-instance element, or several field lines. Distinct = distinct cases.",
@@ -85,6 +101,12 @@ RULES = {
 }
 
 ASSUMPTIONS = {
+    "C05": ["every address of the sandbox is a loopback address, so non-local hosts are DNS names resolved by base connect-to rules appended after the generated rules",
+            "listener activity is sampled after a quiescence wait (pooled connections of the previous case's proxy close asynchronously)",
+            "when a hop is redirected to a listener speaking another protocol only the contact itself is asserted",
+            "proxy-localhost=deny is C04's subject"],
+    "C06": ["site Authorization visible to an upstream proxy on the CONNECT / absolute-form request it relays is not asserted (the statement is silent)",
+            "dial-redirected hops (connect-to) receive what the logical hop would receive"],
     "C18": ["own element hidden inside another element's comment is not generated (the statement speaks of elements)",
             "loops through CONNECT tunnels are outside the property (Via is not visible there)"],
     "C04": ["no precedence between simultaneously failing controls is asserted (status must be one of theirs)",
@@ -115,6 +137,16 @@ ASSUMPTIONS = {
 # MANIFEST texts
 
 META = {
+    "C05": {
+        "technique": "property-based testing (rapid): generated routing configurations (static / PAC tables / direct-domains / localhost mode / connect-to rules) on fresh proxies, reference routing function as oracle, observed by dial log and per-listener activity",
+        "text": "Each generated request has exactly one expected first hop and dial address, or must fail; the check observes which scripted listener the proxy contacts and in which request form, and that nobody else is contacted. 600 configurations x 1-4 requests quick, 40000 thorough.",
+        "note": "PAC scripts are host->result tables evaluated by the real resolver pool; PAC helper semantics are C14's subject. Activity oracle tolerates the final target contacted by the harness' own tunnelling peers.",
+    },
+    "C06": {
+        "technique": "property-based testing (rapid) in the routing laboratory: generated credential tables, upstream userinfo and client header shapes; oracle = per-hop header expectations from a reference precedence matcher",
+        "text": "Every message recorded by every scripted hop is checked: client Proxy-Authorization never forwarded, upstream credentials only on the proxy hop (exact value), site credentials per documented precedence and never over a client Authorization. 600 cases quick, 40000 thorough.",
+        "note": "Kerberos paths are not exercised. Secrets are recognised literally and as base64(user:pass).",
+    },
     "C18": {
         "technique": "property-based testing (rapid): generated Via chains and field-line layouts against live instances, plus real one- and two-instance loop topologies; oracle = refusal/append rule with origin contact counters",
         "text": "Generated chains decide refusal vs. forwarding exactly; the forwarded chain is compared element by element at the origin; real loops must terminate with 400 without origin contact. 1500 cases quick, 64000 thorough.",
